@@ -53,7 +53,11 @@ def run(ctx):
             cases.append({"kind": "pair", "op": ctx.rng.choice(["and", "or", "xor", "sub"]), "ops": ops, "emb": ctx.rng.choice(["fiber", "tensor1", "tensor2"]),
                           "fmt": [ctx.rng.choice(["C", "U"]), ctx.rng.choice(["C", "U"])]})
         else:
-            cases.append({"kind": "nary", "op": ctx.rng.choice(["intersection", "union", "lf"]), "ops": ops, "emb": ctx.rng.choice(["fiber", "tensor1", "tensor2"]), "fmt": ["C"] * k})
+            # n-ary forms over ranks declared uncompressed (a leader-follower leader walks its whole active range, followers are looked up)
+            cases.append({"kind": "nary", "op": ctx.rng.choice(["intersection", "union", "lf", "lf"]), "ops": ops, "emb": ctx.rng.choice(["fiber", "tensor1", "tensor2"]),
+                          "fmt": [ctx.rng.choice(["C", "C", "U"]) for _ in range(k)]})
+        if k == 2:
+            cases.append({"kind": "nary", "op": "lf", "ops": ops, "emb": ctx.rng.choice(["fiber", "tensor1"]), "fmt": [ctx.rng.choice(["C", "U"]), ctx.rng.choice(["C", "U"])]})
     # the same co-iterations over ranks whose leaf default is 2 (a stored 2 counts as absent, a stored 0 is content)
     for c in list(cases):
         if c["emb"] in ("fiber", "tensor1") and ctx.rng.random() < (0.2 if ctx.quick else 0.5):
